@@ -93,7 +93,7 @@ inline bool check_rank_consistent(Case &c, const std::string &tag, const SolveOu
     return same;
 }
 
-struct TruthSpec { std::string solver; size_t maxiter; double tol; double kappa; bool left = false; double left_true = -1; bool must_converge = true; int bicgstabl_L = 2; };
+struct TruthSpec { std::string solver; size_t maxiter; double tol; double kappa; bool left = false; double left_true = -1; bool must_converge = true; int bicgstabl_L = 2; std::string note = "-"; };
 // A, f, x are global (x gathered).  For pside=left the caller passes ||P(f - A x)|| / ||f|| (computed through the solver's own preconditioner) in left_true.
 inline void check_truth(Case &c, const std::string &tag, const Csr<double> &A, const std::vector<double> &f, const std::vector<double> &x, const std::vector<double> &x0, const SolveOut &o, const TruthSpec &sp) {
     const double u = 1.1102230246251565e-16;
@@ -107,7 +107,7 @@ inline void check_truth(Case &c, const std::string &tag, const Csr<double> &A, c
     if (!tfin) {   // a diverging iteration may overflow: truthful iff reported and true value are both non-finite; whether divergence is allowed is the convergence clause
         bool both = !std::isfinite(o.res) && !(finite && std::isfinite((double)tv));
         c.check(both, "residual-mismatch:" + tag, "exactly one of (reported residual, true residual of the gathered solution) is non-finite", J().n("reported", o.res).n("true", (double)tv).n("iters", o.iters));
-        if (sp.must_converge) c.check(false, "not-converged:" + tag, "the distributed solve overflowed instead of converging on an SPD M-matrix", J().n("reported", o.res).n("iters", o.iters).n("maxiter", sp.maxiter));
+        if (sp.must_converge) c.check(false, "not-converged:" + tag, "the distributed solve overflowed instead of converging on an SPD M-matrix", J().n("reported", o.res).n("iters", o.iters).n("maxiter", sp.maxiter).s("single_rank_reference", sp.note));
         vf::obs_sum("solves_overflowed"); return; }
     long double rel, flo;
     if (!recursive_residual(sp.solver) && !sp.left) { rel = 1e-6L; flo = 8.0L * u * (maxrow + 3) * (absAx + nf) / nf; }    // one working-precision evaluation of f - A x and its norm
@@ -119,7 +119,7 @@ inline void check_truth(Case &c, const std::string &tag, const Csr<double> &A, c
     if (sp.must_converge) {
         // (the reported value is tied to the true residual by the oracle above, so the clause is stated on the reported one)
         c.check(o.res < sp.tol && o.iters <= itmax, "not-converged:" + tag, "the distributed solve did not reach the tolerance within the iteration budget on an SPD M-matrix",
-                J().n("reported", o.res).n("true", (double)(nr / nf)).n("tol", sp.tol).n("iters", o.iters).n("maxiter", sp.maxiter));
+                J().n("reported", o.res).n("true", (double)(nr / nf)).n("tol", sp.tol).n("iters", o.iters).n("maxiter", sp.maxiter).s("single_rank_reference", sp.note));
         vf::obs_max("max_iters_converged_" + sp.solver, (double)o.iters);
     }
 }
